@@ -18,9 +18,11 @@
 // Goroutines run free (the HTTP/1 serve loops use unbuffered channels); every
 // step waits for an observable condition (the request/response is complete on
 // the recording connection, the proxy has no active stream left) with a
-// generous timeout that yields a HARNESS error, never a violation. Nothing
-// depends on timing: one request is in flight, each side's message is compared
-// only after the whole exchange is over.
+// generous patience (c01hTimeout, counted on the harness' progress clock, see
+// c01hDeadline; a case that runs into it is re-run once alone, c01hRerun) that
+// yields a HARNESS error, never a violation. Nothing depends on timing: one
+// request is in flight, each side's message is compared only after the whole
+// exchange is over.
 package proxy
 
 import (
@@ -96,7 +98,19 @@ func c01hNewDeadline() c01hDeadline {
 			}
 		}()
 	})
-	return c01hDeadline{at: atomic.LoadInt64(&c01hTicks) + int64(c01hTimeout/c01hTick) + 1}
+	return c01hDeadline{at: atomic.LoadInt64(&c01hTicks) + int64(c01hPatience()/c01hTick) + 1}
+}
+
+// c01hHangConfirmed: a case timed out twice in a row (run + re-run alone). The
+// unit's verdict is a harness error from then on; the remaining cases are still
+// run, with a short patience and without re-runs, so that the unit ends soon.
+var c01hHangConfirmed int32
+
+func c01hPatience() time.Duration {
+	if atomic.LoadInt32(&c01hHangConfirmed) != 0 && c01hTimeout > 5*time.Second {
+		return 5 * time.Second
+	}
+	return c01hTimeout
 }
 
 func (d c01hDeadline) expired() bool { return atomic.LoadInt64(&c01hTicks) >= d.at }
@@ -112,12 +126,13 @@ func c01hIsTimeout(harness string) bool { return strings.Contains(harness, "time
 // what it IS hangs again; one that was a victim of the machine does not.
 func c01hRerun[T any](run func() (T, string)) (T, string) {
 	obs, h := run()
-	if !c01hIsTimeout(h) {
+	if !c01hIsTimeout(h) || atomic.LoadInt32(&c01hHangConfirmed) != 0 {
 		return obs, h
 	}
 	fmt.Fprintf(os.Stderr, "C01 http: first run timed out (%s); running the case again on fresh connections\n", h)
 	obs2, h2 := run()
 	if c01hIsTimeout(h2) {
+		atomic.StoreInt32(&c01hHangConfirmed, 1)
 		return obs2, h2 + " [twice: the case was run again on fresh connections and timed out again; first run: " + h + "]"
 	}
 	atomic.AddInt64(&c01hRecovered, 1)
@@ -449,7 +464,7 @@ func (r *c01hRec) wait(what string, pred func() bool) error {
 		}
 		if deadline.expired() {
 			c01hDump("waiting for: " + what)
-			return fmt.Errorf("timeout (%v) waiting for: %s", c01hTimeout, what)
+			return fmt.Errorf("timeout (%v) waiting for: %s", c01hPatience(), what)
 		}
 		select {
 		case <-r.sig:
@@ -492,7 +507,7 @@ func c01hInject(c *vfake.Conn, b []byte, what string) error {
 			default:
 			}
 			c01hDump(what + " was not consumed")
-			return fmt.Errorf("timeout (%v): %s was not consumed", c01hTimeout, what)
+			return fmt.Errorf("timeout (%v): %s was not consumed", c01hPatience(), what)
 		}
 	}
 }
